@@ -289,7 +289,8 @@ impl Check for C03 {
                     // validators read declared properties through the prototype chain: an object without a prototype that lacks
                     // an optional `toString` / `constructor` / ... is accepted, but the data parse builds from it is an ordinary
                     // object, which inherits a function under that name, and is rejected when validated (or parsed) again
-                    if sig == "c03_data_rejected" || p.starts_with("parse(data) threw") {
+                    // (inside a union the rejected branch simply no longer contributes: the second parse returns less)
+                    if sig == "c03_data_rejected" || sig == "c03_parse_not_idempotent" || p.starts_with("parse(data) threw") {
                         fn has_null_proto(v: &JsVal) -> bool {
                             match v {
                                 JsVal::Obj(kv, proto) => *proto == crate::jsval::Proto::Null || kv.iter().any(|(_, x)| has_null_proto(x)),
